@@ -391,3 +391,26 @@ prop("C19", "c19",
            "entry points the watcher, the providers and the servers use; bounded exploration.",
      note="Trusted: Go's net/http server for the raw TCP part; the harness' recover() around entry points.",
      technique="property-based testing / structured fuzzing: mutation grammar + exhaustive truncation, no-panic and still-serving oracle")
+
+prop("C20", "c20",
+     "Valid configurations are generated as trees from a grammar over the documented options (log, tracing, metrics, "
+     "profiling, secrets_reload_enabled, serve.decision/proxy/management with timeouts, buffer limits, trusted_proxies lists, "
+     "respond overrides, connection limits and CORS, mechanisms of every type with nested options and lists of maps such as "
+     "jwt_source / authentication_data_source / expressions, endpoint auth strategies, values, default rule pipelines, "
+     "providers); keys contain '_' and values are templates, durations, byte sizes, numbers, booleans. Per case: all leaves in "
+     "the file; all leaves as environment variables (prefix, '_' separator, '__' for a literal underscore, numeric segments as "
+     "list indices, YAML scalars as values); a generated split of the leaves between file and environment (inside mechanisms, "
+     "default rule and providers only members optional for the schema leave the file); a generated permutation of the "
+     "environment; conflicting assignments for a generated subset of leaves. Oracle: the resulting Configuration values are "
+     "deeply equal (file == environment == split == permuted); with conflicts the result equals the file with exactly those "
+     "leaves replaced; a configuration loads and its mechanism catalogue builds from the file iff it does from the environment. "
+     "Non-trivial: a list element or a member nested in a list comes from the environment, or there is a conflict; distinct by "
+     "(leaves, split, conflicts).",
+     [dict(run="^TestFileAndEnvironmentAreEquivalent$", quick=250, thorough=2500, shards_thorough=12)],
+     ["map keys are lower case and contain no '.' (environment variable names are case-insensitive by the documented rules)",
+      "environment values are rendered as YAML scalars (the loader types them with a YAML parser)",
+      "one load at a time per process: every load uses its own environment prefix"],
+     level="Randomised generated search over configurations x splits x permutations with a differential oracle between file "
+           "and environment loading (the real loader incl. schema validation and the real mechanism catalogue); bounded exploration.",
+     note="Trusted: gopkg.in/yaml.v3 for writing the file and the environment values.",
+     technique="property-based testing: grammar-generated configurations, differential file vs environment vs split")
